@@ -60,6 +60,9 @@ pub fn run(ctx: &mut Ctx, is_req: bool, cap: usize, steps: &[Step], backend: Bac
             let pc = mkcfg(s.cfg);
             let len_before = req.headers.len();
             crate::obs::IN_MONITORED_CALL.with(|c| c.set(true));
+            // cursor-operation fuel as in obs::guarded: a call that does not terminate panics instead
+            // of hanging the worker (and losing what it has already recorded)
+            httparse::_verif::set_fuel(16 * s.buf.len() as u64 + 4096);
             let r = catch_unwind(AssertUnwindSafe(|| match s.entry {
                 Entry::R1 => req.parse(s.buf),
                 Entry::R2 => pc.parse_request(&mut req, s.buf),
@@ -67,6 +70,7 @@ pub fn run(ctx: &mut Ctx, is_req: bool, cap: usize, steps: &[Step], backend: Bac
                 Entry::R4 => pc.parse_request_with_uninit_headers(&mut req, s.buf, take_uninit(s.ucap)),
                 _ => panic!("harness: not a request entry"),
             }));
+            httparse::_verif::set_fuel(0);
             crate::obs::IN_MONITORED_CALL.with(|c| c.set(false));
             let st = st_of(&r.as_ref().ok().cloned());
             let mut res = Res::new(st);
@@ -88,12 +92,16 @@ pub fn run(ctx: &mut Ctx, is_req: bool, cap: usize, steps: &[Step], backend: Bac
             let pc = mkcfg(s.cfg);
             let len_before = resp.headers.len();
             crate::obs::IN_MONITORED_CALL.with(|c| c.set(true));
+            // cursor-operation fuel as in obs::guarded: a call that does not terminate panics instead
+            // of hanging the worker (and losing what it has already recorded)
+            httparse::_verif::set_fuel(16 * s.buf.len() as u64 + 4096);
             let r = catch_unwind(AssertUnwindSafe(|| match s.entry {
                 Entry::S1 => resp.parse(s.buf),
                 Entry::S2 => pc.parse_response(&mut resp, s.buf),
                 Entry::S4 => pc.parse_response_with_uninit_headers(&mut resp, s.buf, take_uninit(s.ucap)),
                 _ => panic!("harness: not a response entry"),
             }));
+            httparse::_verif::set_fuel(0);
             crate::obs::IN_MONITORED_CALL.with(|c| c.set(false));
             let st = st_of(&r.as_ref().ok().cloned());
             let mut res = Res::new(st);
